@@ -348,3 +348,77 @@ fn c07_decrease_whole_minimal_long_u8() {
 fn c09_liquidation_whole_minimal_long_u8() {
     decrease_whole::<u8, 1>(MINIMAL, true, true, true, true);
 }
+
+// ------------------------------------------------------------------------------------------------
+// C13 through the real `IncreasePosition::execute` on a nearly concrete state (quick tier).
+
+/// Everything concrete except the borrowing state: the market's cumulative factor `F`, the position's
+/// last factor `f <= F` and the total borrowing (containing the position's share) are symbolic. The
+/// whole action then folds to a few symbolic steps, and the order "settle total borrowing with the
+/// OLD position factor, then store the new factor" is visible in the total-borrowing delta.
+fn increase_settles_borrowing_with_old_factor<T, const D: u8>(is_long: bool, cl: bool)
+where
+    T: FixedPointOps<D> + CheckedSub + Copy + kani::Arbitrary + Into<u32> + num_traits::Bounded,
+    T::Signed: Num + Copy + kani::Arbitrary + Into<i32>,
+{
+    let n = |v: u8| T::from_u8(v).unwrap();
+    let unit = w(T::UNIT);
+    let mut m = VMarket::<T, D>::zero();
+    {
+        let pool = m.open_interest.get_mut(is_long);
+        if cl { pool.long = n(60) } else { pool.short = n(60) }
+        let pool = m.open_interest_in_tokens.get_mut(is_long);
+        if cl { pool.long = n(6) } else { pool.short = n(6) }
+        let pool = m.collateral_sum.get_mut(is_long);
+        if cl { pool.long = n(120) } else { pool.short = n(120) }
+    }
+    m.liquidity = VPool { long: n(200), short: n(200) };
+    m.funding_amount_per_size_adjustment = T::one();
+    m.position_impact_params.exponent = T::UNIT;
+    m.pnl_factor.trader = Side2::both(T::UNIT);
+    m.reserve_factor = T::UNIT;
+    m.open_interest_reserve_factor = T::UNIT;
+    m.max_open_interest = Side2::both(T::max_value());
+    // symbolic borrowing state
+    let f_market: T = kani::any();
+    let f_position: T = kani::any();
+    let total: T = kani::any();
+    kani::assume(f_position <= f_market);
+    if is_long { m.borrowing_factor.long = f_market } else { m.borrowing_factor.short = f_market }
+    if is_long { m.total_borrowing.long = total } else { m.total_borrowing.short = total }
+    let mut p = VPosition::<T, D>::zero(m, is_long, cl);
+    p.size_in_usd = n(50);
+    p.size_in_tokens = n(5);
+    p.collateral_amount = n(100);
+    p.borrowing_factor = f_position;
+    kani::assume(w(total) >= w(p.size_in_usd) * w(f_position) / unit);
+    let before = p;
+    let prices = flat_prices(n(10), n(1), n(1));
+    // a deposit-only increase: the size stays, pending borrowing fees are settled
+    let (increment, size_delta) = (n(10), n(0));
+
+    let mut pos0 = p;
+    let a = IncreasePosition::try_new(&mut pos0, prices, increment, size_delta, None);
+    let Ok(a) = a else {
+        core::mem::forget(a);
+        return;
+    };
+    let r = a.verif_with_position(&mut p).execute();
+    if r.is_ok() {
+        assert_c13_settle(&before, &p);
+        assert!(w(p.size_in_usd) == 50);
+        kani::cover!(f_position < f_market && w(f_market) * 50 / unit > w(f_position) * 50 / unit, "pending borrowing fees settled");
+        kani::cover!(f_position == f_market && !f_market.is_zero(), "already settled");
+    }
+    core::mem::forget(r);
+}
+
+//@ prop=C13 tier=quick kind=hold
+//@ enc=IncreasePosition::execute (whole action; the order of PositionMutExt::update_total_borrowing and the assignment of the position's borrowing factor), PositionMutExt::update_total_borrowing, PositionExt::pending_borrowing_fee_value
+//@ bound=T=u8, DECIMALS=1: long position with long-token collateral; symbolic: the market's cumulative borrowing factor, the position's last factor (<= the market's) and the total borrowing (>= the position's share); everything else concrete (position 50 usd / 5 tokens / 100 collateral, deposit-only increase of 10 collateral tokens (size delta 0), prices 10 / 1 / 1, own open interest 60 / 6, no order fees, no price impact, thresholds zero)
+//@ stubs=<u8 as SpecToString>::spec_to_string -> empty string; hook: IncreasePosition::verif_with_position
+#[kani::proof]
+#[kani::stub(<u8 as alloc::string::SpecToString>::spec_to_string, empty_string_u8)]
+fn c13_increase_settles_borrowing_with_old_factor_long_u8() {
+    increase_settles_borrowing_with_old_factor::<u8, 1>(true, true);
+}
